@@ -117,13 +117,16 @@ Section Inv.
       apply inv_push_state; [assumption|]. exact Hhd.
   Qed.
 
-  Lemma declared_names_selects : forall a b raw,
+  Lemma declared_names_selects : forall fb a b raw,
     slice src a b = Done raw ->
     Forall (fun p => selects src (snd p) (fst p))
-           (declared_names (a + byte_len (take_while is_ws raw)) (trim is_ws raw)).
+           (declared_names fb (a + byte_len (take_while is_ws raw)) (trim is_ws raw)).
   Proof.
-    intros a b raw Hraw. unfold declared_names. apply Forall_forall. intros [name sp] Hin.
+    intros fb a b raw Hraw. unfold declared_names. apply Forall_forall. intros [name sp] Hin.
     apply in_map_iff in Hin. destruct Hin as [[o piece] [Heq Hin]]. inversion Heq; subst name sp. clear Heq.
+    assert (Hin' : In (o, piece) (split is_ws (trim is_ws raw))).
+    { destruct fb; [apply filter_In in Hin; destruct Hin as [Hin _]|]; exact Hin. }
+    clear Hin. rename Hin' into Hin.
     apply split_selects in Hin. unfold selects. cbn [fst snd].
     (* raw = lead ++ params ++ w *)
     set (lead := take_while is_ws raw).
@@ -137,12 +140,12 @@ Section Inv.
   Qed.
 
   Lemma declare_start_states_inv : forall excl i dl ll st errs k st' errs',
-    inv st -> declare_start_states src excl i dl ll st errs = TOk (k, st') errs' -> inv st'.
+    inv st -> declare_start_states src fx excl i dl ll st errs = TOk (k, st') errs' -> inv st'.
   Proof.
     intros excl i dl ll st errs k st' errs' Hi H. unfold declare_start_states in H.
     apply lbind_ok in H. destruct H as [raw [Hraw H]]. apply lift_ok in Hraw.
     destruct (trim is_ws raw) as [|c0 params] eqn:Etrim; [discriminate|]. rewrite <- Etrim in H.
-    destruct (declare_loop excl (declared_names (i + dl + byte_len (take_while is_ws raw)) (trim is_ws raw)) st errs)
+    destruct (declare_loop excl (declared_names (fix_decl_blanks fx) (i + dl + byte_len (take_while is_ws raw)) (trim is_ws raw)) st errs)
       as [st1 errs1| | |] eqn:El; try discriminate.
     apply lbind_ok in H. destruct H as [k' [_ H]]. inversion H; subst.
     eapply declare_loop_inv; [exact Hi| |exact El].
@@ -150,7 +153,7 @@ Section Inv.
   Qed.
 
   Lemma parse_declaration_inv : forall i st errs k st' errs',
-    inv st -> parse_declaration src i st errs = TOk (k, st') errs' -> inv st'.
+    inv st -> parse_declaration src fx i st errs = TOk (k, st') errs' -> inv st'.
   Proof.
     intros i st errs k st' errs' Hi H. unfold parse_declaration in H.
     apply lbind_ok in H. destruct H as [ll [_ H]].
@@ -163,7 +166,7 @@ Section Inv.
   Qed.
 
   Lemma parse_declarations_loop_inv : forall fuel i st errs k st' errs',
-    inv st -> parse_declarations_loop src awc fuel i st errs = TOk (k, st') errs' -> inv st'.
+    inv st -> parse_declarations_loop src awc fx fuel i st errs = TOk (k, st') errs' -> inv st'.
   Proof.
     induction fuel as [|fuel IH]; intros i st errs k st' errs' Hi H; [discriminate|].
     cbn [parse_declarations_loop] in H.
@@ -174,7 +177,7 @@ Section Inv.
     - destruct (i1 =? src_len src); [discriminate|].
       apply lbind_ok in H. destruct H as [sep [_ H]]. destruct sep as [j|].
       + apply lbind_ok in H. destruct H as [k' [_ H]]. inversion H; subst. assumption.
-      + destruct (parse_declaration src i1 st errs) as [[i2 st2] errs2| | |] eqn:Ed; try discriminate.
+      + destruct (parse_declaration src fx i1 st errs) as [[i2 st2] errs2| | |] eqn:Ed; try discriminate.
         eapply IH; [|exact H]. eapply parse_declaration_inv; eauto.
   Qed.
 
@@ -265,7 +268,7 @@ Section Inv.
     parse src awc pe iw re_bad fx fuel start = Done (POk st) -> inv st.
   Proof.
     intros fuel start st H. unfold parse in H.
-    destruct (parse_declarations src awc fuel start initial_state []) as [[i1 st1] errs1| | |] eqn:Ed; try discriminate.
+    destruct (parse_declarations src awc fx fuel start initial_state []) as [[i1 st1] errs1| | |] eqn:Ed; try discriminate.
     unfold parse_declarations in Ed. apply lbind_ok in Ed. destruct Ed as [i0 [_ Ed]].
     apply parse_declarations_loop_inv in Ed; [|apply inv_initial].
     destruct (parse_rules src awc pe iw re_bad fx fuel i1 st1 errs1) as [[i2 st2] errs2| | |] eqn:Er; try discriminate.
